@@ -17,7 +17,7 @@ CONSTANTS
   PskIds = {"k1", "k2"}
   PskValues = {"none", "a", "b"}
   JitterChoices = {99999}
-  Deviations = {"F12", "F14"}
+  Deviations = {"F12", "F14", "F24"}
   MaxApps = 30
   MaxSucc = 6
   CapX = {}
